@@ -203,16 +203,19 @@ def run_sequence(root, docs, seq):
                 pending.append((op[5], i))
             # liveness probe after every message
             r = c.request("glas/syntaxTree", {"textDocument": {"uri": docs[4].uri}}, timeout=15)
+            if r is None and c.alive():
+                # a loaded machine: a live process gets one long second chance before it counts as stuck
+                r = c.request("glas/syntaxTree", {"textDocument": {"uri": docs[4].uri}}, timeout=90)
             if r is None or not c.alive():
                 obs["alive"] = False
                 obs["died_at"] = n
                 obs["stderr"] = c.stderr_tail()
                 return obs
         for rid, i in pending:
-            r = c.wait(i, timeout=15)
+            r = c.wait(i, timeout=60)
             obs["responses"][rid] = None if r is None else ("ok" if "error" not in r else "err")
         for d in docs:
-            r = c.request("glas/syntaxTree", {"textDocument": {"uri": d.uri}}, timeout=15)
+            r = c.request("glas/syntaxTree", {"textDocument": {"uri": d.uri}}, timeout=60)
             if r is None:
                 obs["texts"][d.key] = "NO-ANSWER"
             elif "error" in r:
